@@ -159,6 +159,28 @@ def explore(chk, rnd, tier):
         if o.get("r") != "ok" or got != want:
             chk.add_violation("echo", {"arg": a[1], "sanitized": s.get("v"), "result": o, "expected": want})
             break
+    # echo of TWO arguments under every dialect option: the pre-processors of the options (double quotes -> backticks,
+    # [..] -> ARRAY(..)) run over the sanitized text and must leave the rendered literals alone, whatever they contain
+    pool = ["a\\", "x\\", "say \"hi\"", "[1, 2]", "it's", "`tick`", "\\'", "\"", "]", "plain", "", "a\\b", "é\\"]
+    pairs = [(rnd.choice(pool), rnd.choice(pool)) for _ in range(150 if tier == "quick" else 2000)]
+    sans2 = run_go([{"op": "sanitize", "text": "SELECT $1 AS a, $2 AS b FROM dual",
+                     "args": [{"t": "string", "v": x}, {"t": "string", "v": y}]} for x, y in pairs])
+    reqs2, meta2 = [], []
+    for (x, y), s2 in zip(pairs, sans2):
+        if s2.get("r") != "ok":
+            chk.add_violation("sanitize-failed", {"args": [x, y], "impl": s2})
+            break
+        for pg in (False, True):
+            for arr in (False, True):
+                reqs2.append({"op": "query", "doc": {}, "sql": s2["v"], "pg": pg, "arr": arr})
+                meta2.append((x, y, s2["v"], pg, arr))
+    outs2 = run_go(reqs2) if reqs2 and not chk.violations else []
+    for (x, y, text, pg, arr), o in zip(meta2, outs2):
+        chk.count("echo2:pg=%s,arr=%s:%s" % (pg, arr, o.get("r")))
+        row = dec_val(o["v"])[0] if o.get("r") == "ok" and dec_val(o["v"]) else {}
+        if o.get("r") != "ok" or row.get("a") != x or row.get("b") != y:
+            chk.add_violation("echo-under-dialect-options", {"args": [x, y], "sanitized": text, "pg": pg, "arr": arr, "result": o})
+            break
     # ---------- known finding witness: `$n` inside a backtick identifier is substituted
     for f in load_findings():
         if f.get("property") == "C16" and f.get("id") == "KF-lexer-backtick":
